@@ -501,6 +501,9 @@ struct ReaderLog {
 thread_local! {
     static READER_LOG: RefCell<ReaderLog> = RefCell::new(ReaderLog::default());
     static TRAP_LOG: RefCell<Vec<TrapCall>> = const { RefCell::new(Vec::new()) };
+    /// How the simulated callback decides in this run (drawn at its first call): per call, or
+    /// the same answer every time (so that long malformed runs are carried through).
+    static TRAP_POLICY: std::cell::Cell<u8> = const { std::cell::Cell::new(u8::MAX) };
 }
 
 #[derive(Clone, Debug)]
@@ -636,7 +639,16 @@ impl Read for SimReader {
 fn sim_trap(mal_len: u8, after: u8, input: &[u8], output: &mut String) -> ControlFlow<Cow<'static, str>> {
     clock::tick();
     probe(Probe::TrapCalled);
-    let d = clock::choose(8) as u8;
+    if TRAP_POLICY.with(std::cell::Cell::get) == u8::MAX {
+        TRAP_POLICY.with(|c| c.set(clock::choose(8) as u8));
+    }
+    let d = match TRAP_POLICY.with(std::cell::Cell::get) {
+        4 => 0,
+        5 => 9,
+        6 => 8,
+        7 => 5,
+        _ => clock::choose(10) as u8,
+    };
     TRAP_LOG.with(|l| {
         l.borrow_mut().push(TrapCall {
             mal_len,
@@ -664,6 +676,17 @@ fn sim_trap(mal_len: u8, after: u8, input: &[u8], output: &mut String) -> Contro
         4 => {
             probe(Probe::TrapShrinksOutput);
             output.clear();
+            ControlFlow::Continue(())
+        }
+        // ... or gives the buffer's memory back (capacity is the callback's to change too)
+        8 => {
+            probe(Probe::TrapShrinksOutput);
+            *output = String::new();
+            ControlFlow::Continue(())
+        }
+        9 => {
+            probe(Probe::TrapShrinksOutput);
+            output.shrink_to_fit();
             ControlFlow::Continue(())
         }
         3 => {
@@ -859,7 +882,8 @@ fn ref_expect(b: &[u8], trap: &str, calls: &[TrapCall]) -> (Expect, usize, Optio
                         1 => {
                             out.pop();
                         }
-                        4 => out.clear(),
+                        4 | 8 => out.clear(),
+                        9 => {}
                         3 => out.push('\u{FFFD}'),
                         5 => out.push_str(BIG),
                         6 => return (Expect::Decode(strict_msg(off, &bad)), n_calls, arg_mismatch),
@@ -946,6 +970,7 @@ pub fn execute(case: &Case, record_seed: Option<u64>) -> Outcome {
     // longer than the stored bytes (a callback may push 64 bytes per malformation), so it is off.
     saphyr_parser::verif_hooks::set_work_budget(u64::MAX);
     TRAP_LOG.with(|l| l.borrow_mut().clear());
+    TRAP_POLICY.with(|c| c.set(u8::MAX));
     let decode_budget = 2 * len + 128;
     saphyr::verif_hooks::set_decode_budget(decode_budget);
     let allow_hard = !case.fault_free && case.faults.iter().any(|f| f == "reader:hard-error");
